@@ -28,6 +28,9 @@ HARNESS = os.path.join(VERIF, "harness")
 GOENV = dict(os.environ, GOFLAGS="-mod=mod", GOPROXY="off", GOSUMDB="off",
              GOTOOLCHAIN="local", CGO_ENABLED="0")
 NPROC = os.cpu_count() or 4
+# when a check is pointed at a scratch copy of the repository (mutation testing), its evidence and replays go elsewhere
+EVID = os.environ.get("VERIF_EVIDENCE_DIR") or os.path.join(VERIF, "evidence")
+REPLAYS = (os.path.join(os.environ["VERIF_EVIDENCE_DIR"], "replays") if os.environ.get("VERIF_EVIDENCE_DIR") else os.path.join(VERIF, "replays"))
 
 TRUSTED_BASE = [
     "Coq 8.16.1 kernel and coqc; vm_compute (bytecode VM) for finite reflective sweeps; native_compute not used",
@@ -213,7 +216,7 @@ class Ctx:
             if line not in self.known:
                 self.known.append(line)
             return False
-        rdir = os.path.join(VERIF, "replays")
+        rdir = REPLAYS
         os.makedirs(rdir, exist_ok=True)
         n = len(self.violations)
         path = os.path.join(rdir, "%s-%d-%d.json" % (self.prop, self.seed, n))
@@ -260,8 +263,8 @@ class Ctx:
             "wall_s": round(time.time() - self.t0, 2),
             "violations": len(self.violations),
         }
-        os.makedirs(os.path.join(VERIF, "evidence"), exist_ok=True)
-        with open(os.path.join(VERIF, "evidence", self.prop + ".json"), "w") as f:
+        os.makedirs(EVID, exist_ok=True)
+        with open(os.path.join(EVID, self.prop + ".json"), "w") as f:
             json.dump(ev, f, indent=1)
         for what, path, nf in self.violations[:20]:
             print("# " + what[:500])
@@ -344,7 +347,7 @@ def run_check(prop, fn, argv):
         rc = fn(ctx)
     except Fail as e:
         # infrastructure or proof failure: the property is no longer shown to hold
-        rdir = os.path.join(VERIF, "replays")
+        rdir = REPLAYS
         os.makedirs(rdir, exist_ok=True)
         path = os.path.join(rdir, "%s-%d-infra.json" % (prop, ctx.seed))
         json.dump({"property": prop, "what": "check could not complete: a build, proof obligation or correspondence run failed",
@@ -355,7 +358,7 @@ def run_check(prop, fn, argv):
               "coverage": {"evaluations": ctx.evaluations, "distinct_nontrivial": len(ctx.nontrivial),
                            "explanation": "check aborted: " + str(e)[:500], "samples": ctx.samples or ["<none>"]},
               "wall_s": round(time.time() - ctx.t0, 2), "violations": 1}
-        os.makedirs(os.path.join(VERIF, "evidence"), exist_ok=True)
-        json.dump(ev, open(os.path.join(VERIF, "evidence", prop + ".json"), "w"), indent=1)
+        os.makedirs(EVID, exist_ok=True)
+        json.dump(ev, open(os.path.join(EVID, prop + ".json"), "w"), indent=1)
         rc = 1
     sys.exit(rc)
